@@ -258,6 +258,7 @@ def run(ctx):
         if hf:
             cases += families.reduction_cases(rnd, 300, prefix="RH", funcs=hf)
     cases += families.call_update_call(rnd, cases, 60 if ctx.tier == "quick" else 500)
+    cases += families.flag_flip_first(rnd, cases, 120 if ctx.tier == "quick" else 800)
     for c in cases:
         c["lazy_subsets"] = c["lazy_subsets"][:1] if rnd.random() < 0.4 else []
     family.evaluate(ctx, cases, want=("oracle", "traced", "static"))
